@@ -68,6 +68,8 @@ func (g *aspGen) callFunc(f *afunc, d int) ex {
 	}
 	e := call(f.name, args...)
 	e.fresh = f.fresh
+	e.nonASCII = true
+	e.fold = f.folded
 	return e
 }
 
@@ -126,9 +128,10 @@ func (g *aspGen) common(t AspType, d int) (ex, bool) {
 		if dv := g.varOf(AspDictOf(t)); dv != nil {
 			g.feat("dict_get")
 			k := quote(dictKeys[g.n(0, len(dictKeys)-1, "getkey")], false)
-			e := method(g.varEx(dv), "get", k, arg(g.expr(t, d-1)))
+			e := method(g.varEx(dv), "get", k, arg(g.elemAliased(t, d-1)))
 			e.fresh = false
 			e.nonASCII = true
+			e.fold = dv.folded || g.reeval()
 			return e, true
 		}
 	case k < 13 && d > 0 && t.K != AspBool:
@@ -174,7 +177,7 @@ func (g *aspGen) elemOf(l *avar, t AspType, d int) ex {
 		g.feat("negative_index")
 	}
 	g.op(pCmp)
-	alt := g.expr(t, d-1)
+	alt := g.elemAliased(t, d-1)
 	e := ex{s: index(le, idx).s + " if " + cond + " else " + par(alt, pTernary), p: pTernary, post: 2, ln: -1, nonASCII: true}
 	g.feat("inline_if")
 	return e
